@@ -448,6 +448,9 @@ impl<CharIter: Iterator<Item = char>> Lexer<CharIter> {
                                 let mut denominator = String::new();
                                 self.advance(1);
                                 self.digital10(&mut denominator)?;
+                                if let Some(nc) = self.peekable_char_stream.peek() {
+                                    Self::test_delimiter(Some(self.location), *nc)?;
+                                }
                                 break Ok(Some(TokenData::Primitive(Primitive::Rational(
                                     self.parse_integer(&number_literal)?,
                                     match self.parse_integer(&denominator)? {
